@@ -185,6 +185,18 @@ var Layouts = []Layout{
 	{Name: "spreading-void-child", Pre: "\t<p>head <input value={", Post: "}/></p>", Toks: []string{spreading}},
 	{Name: "func-literal-call", Pre: "\t@func() templ.Component {", Post: "}()", Toks: []string{`return`, `templ.NopComponent`}},
 	{Name: "func-literal-arg", Pre: "\t@c2(func() string {", Post: "}(), b)", Toks: []string{`return`, `s`}},
+	// block comments inside expressions, calls whose parentheses span lines
+	{Name: "legacy-comment", Pre: "\t{!", Post: "}", Toks: []string{`c()`, `/* c */`}},
+	{Name: "legacy-comment-first", Pre: "\t{!", Post: "}", Toks: []string{`/* c */`, `c()`}},
+	{Name: "text-comment", Pre: "\t<p>{", Post: "}</p>", Toks: []string{`s`, `/* c */`}},
+	{Name: "attr-comment", Pre: "\t<div title={", Post: "}>x</div>", Toks: []string{`s`, `/* c */`}},
+	{Name: "call-comment", Pre: "\t@c2(", Post: ")", Toks: []string{`s`, `,`, `/* c */`, `b`}},
+	{Name: "if-comment", Pre: "\tif ", Post: "{\n\t\tyes\n\t}", Toks: []string{`b`, `/* c */`}},
+	{Name: "raw-go-comment", Pre: "\t{{", Post: "}}", Toks: []string{`_ = s`, `/* c */`}},
+	{Name: "raw-go-call", Pre: "\t{{", Post: "}}", Toks: []string{`_ =`, `up(`, `s`, `,`, `)`}},
+	{Name: "raw-go-call-child", Pre: "\t<p>{{", Post: "}}</p>", Toks: []string{`_ =`, `up(`, `s`, `)`}},
+	{Name: "raw-go-if-child", Pre: "\t<p>{{", Post: "}}</p>", Toks: []string{`if b {`, `_ = s`, `}`}},
+	{Name: "raw-go-var-child", Pre: "\t<p>{{", Post: "}}{ v }</p>", Toks: []string{`var (`, `v = s`, `)`}},
 	{Name: "raw-go", Pre: "\t{{", Post: "}}\n\t{ v }", Toks: []string{`v`, `:=`, `s`}},
 	{Name: "raw-go-two", Pre: "\t{{", Post: "}}\n\t{ v }", Toks: []string{`v`, `:=`, `up(`, `s`, `)`, `;`, `_ = v`}},
 	{Name: "if", Pre: "\tif ", Post: "{\n\t\tyes\n\t}", Toks: []string{`b`, `&&`, `len(xs) > 0`}},
